@@ -1685,7 +1685,7 @@ fn c17(r: &Runner) {
         }
         for ty in [Type::JSONB, Type::JSON, Type::TEXT] {
             let t = PG_TYPES.iter().position(|x| *x == ty).unwrap();
-            for txt in ["", "\"", "\"\"", "\"0x\"", "\"0x1\"", "0x1", "1", "\"1", "1\"", "\u{1}", "\u{1}\"", "\u{1}\"\"", "\u{1}\"0x1\"", "\u{2}\"0x1\"", "\"\u{e9}\"", "1\u{e9}", "\u{20ac}", "-1", "\"-1\"", "1.0", "null", "1\u{131}", "\"1\u{161}\"", "0x\u{661}", "1\u{15f}0"] {
+            for txt in ["", "\"", "\"\"", "\"0x\"", "\"0x1\"", "0x1", "1", "\"1", "1\"", "\u{1}", "\u{1}\"", "\u{1}\"\"", "\u{1}\"0x1\"", "\u{2}\"0x1\"", "\"\u{e9}\"", "1\u{e9}", "\u{20ac}", "-1", "\"-1\"", "1.0", "null", "1\u{131}", "\"1\u{161}\"", "0x\u{661}", "1\u{15f}0", "\u{212a}", "1\u{212a}", "0x\u{212a}", "\u{17f}", "\u{ff11}", "0x\u{ff21}", "\u{1d7cf}"] {
                 pg.push((t, txt.as_bytes().to_vec()));
             }
         }
